@@ -3,7 +3,7 @@ from . import cacheworld as cw
 
 PROP = 'C09'
 PROFILE = 'c09'
-QUICK = (128, 60, 60.0)
+QUICK = (224, 60, 60.0)
 THOROUGH = (1200, 100, 840.0)
 SHRINK_LISTS, SHRINK_DICTS = cw.SHRINK_LISTS, cw.SHRINK_DICTS
 
